@@ -2,6 +2,7 @@ package prop
 
 import (
 	"fmt"
+	"slices"
 	"strings"
 
 	"verif/sim/cisco"
@@ -51,6 +52,8 @@ func c11Run(c *Ctx, tp *tape.Tape, extra map[string]any) *Failure {
 	cs := GenCiscoCase(tp, kind)
 	o := DefaultLiveOpts(tp)
 	o.Compare = true
+	// drc -C without a log directory.
+	o.NoLogDir = o.Front == "drc" && tp.Next(3) == 0
 	// Interlock outcomes.
 	switch tp.Next(6) {
 	case 0:
@@ -96,7 +99,13 @@ func c11Run(c *Ctx, tp *tape.Tape, extra map[string]any) *Failure {
 	c.Sample(map[string]any{"front": o.Front, "kind": kind, "banner": o.Banner, "checkbanner": o.CheckBanner,
 		"hostname": o.Hostname, "exit": base.Res.Exit, "dialogue_lines": base.Dev.K(), "log_tail": tail(base.Log, 8)})
 	for pi, rec := range base.Dev.Transcr {
-		for ki, fk := range faultKindsFor(rec.Class, rec.Line) {
+		kinds := faultKindsFor(rec.Class, rec.Line)
+		if !slices.Contains(kinds, "error-text") && rec.Line != "<password>" && rec.Class != "confmode" && rec.Class != "guard" {
+			// A refused session or show command must not make a compare run
+			// change anything either.
+			kinds = append(append([]string(nil), kinds...), "error-text")
+		}
+		for ki, fk := range kinds {
 			if c.Quick && (pi+ki)%3 != len(tp.Rec)%3 {
 				continue
 			}
